@@ -371,7 +371,7 @@ def _Solve_Axb(
         x, output = sla.gmres(A, b.toarray(), x0, maxiter=None)
 
     elif solver == "lgmres":
-        x, output = sla.lgmres(A, b.toarray(), x0, maxiter=None)
+        x, output = sla.lgmres(A, b.toarray(), x0)
 
     elif solver == SolverType.lsq_linear:
         # constrained minimization
